@@ -34,6 +34,11 @@ func readArrayPaths(ctx context.Context, read stdio.Io, callback func([]byte)) e
 		return err
 	}
 
+	if len(b) == 0 {
+		// bytes.Split would return one empty element for the empty list
+		return nil
+	}
+
 	split := bytes.Split(b, pathsSeparator)
 	for i := range split {
 
